@@ -793,7 +793,8 @@ class BosonicBackend(BaseBosonic):
             return np.array([res[:, 0] + 1j * res[:, 1]]).T
 
         res = select
-        self.circuit.post_select_heterodyne(mode, select)
+        # the circuit works with phase-space points: alpha corresponds to sqrt(2 hbar) (Re alpha, Im alpha)
+        self.circuit.post_select_heterodyne(mode, np.sqrt(2 * self.circuit.hbar) * select)
         return np.array([[res]])
 
     def is_vacuum(self, tol=1e-10, **kwargs):
